@@ -59,6 +59,8 @@ CONSUMER_VALUES = {
                                                         'DEEP_SERVICE_USERNAME': 'u', 'DEEP_SERVICE_PASSWORD': 'p'},),
     'SERVICE_URL': ({'SERVICE_URL': 'host1:1234'}, {'SERVICE_URL': 'host1:1234'}, {'DEEP_SERVICE_URL': 'host1:1234'}),
     'APP_ROOT': ({'APP_ROOT': '/x/app'}, {'APP_ROOT': '/x/app'}, {'DEEP_APP_ROOT': '/x/app'}),
+    'NO_TRACE_false': ({'NO_TRACE': False}, {'NO_TRACE': 'false'}, {'DEEP_NO_TRACE': 'false'}),
+    'NO_TRACE_true': ({'NO_TRACE': True}, {'NO_TRACE': 'true'}, {'DEEP_NO_TRACE': 'true'}),
 }
 
 
@@ -139,6 +141,10 @@ def consumer_case(case):
                 else 'frames %s' % fr
         want = 'only_root_is_app' if setting == 'IN_APP_INCLUDE_empty' else 'all_of_root_is_app'
         return want if flags == [True, True, False] and fr[0][1] == '/x/app' and fr[2][1] is None else 'frames %s' % fr
+    if setting.startswith('NO_TRACE'):
+        pc['kind'] = 'trace_hooks'
+        res = probe(pc)
+        return {True: 'hooks_installed', False: 'hooks_untouched'}.get(res.get('installed'), 'probe: %s' % res)
     if setting == 'APP_ROOT':
         pc['kind'] = 'app_root'
         pc['paths'] = ['/x/app/m.py', '/y/m.py']
